@@ -138,6 +138,10 @@ func (scb *SchemaClientBoundImpl) ToPath(ctx context.Context, path []string) (*s
 			// adding the keys with the value from path[i], which is the key value
 			for _, k := range keyNames {
 				i++
+				// the path might end in the middle of the key values
+				if i >= len(path) {
+					break
+				}
 				newPathElem.Key[k] = path[i]
 			}
 		}
